@@ -95,6 +95,15 @@ watch semantics of the store the handlers subscribe to — the v2 transaction st
     every path (with `WithReplay()` too), and before the replay reads the current state. -/
 theorem C08_subscribe_registers_first : (OnosVerif.Store.Watch.codeCfg .tx2).registerFirst = true := by decide
 
+/-- regenerated: a handler that gives up (its context is cancelled) leaves its watch through a
+    `case <-ctx.Done():` branch; every such return of the v2 transaction store's per-watch goroutine first
+    starts the endless drain of its internal channel, so a departed handler never blocks the dispatcher that
+    every other waiting handler depends on ("it never keeps waiting for a transaction that has already
+    finished" needs the dispatcher alive). -/
+theorem C08_fact_departed_handler_is_drained :
+    OnosVerif.Generated.StoreFacts.v2TxWatchCancelReturnsDrained = OnosVerif.Generated.StoreFacts.v2TxWatchCancelReturns ∧
+    0 < OnosVerif.Generated.StoreFacts.v2TxWatchCancelReturns := by decide
+
 /-- The subscribe step loses no final event: in every reachable state of the v2 transaction store's watch machine (any
     interleaving of the controllers' writes with the handler's `Watch(WithReplay, WithTransactionID id)`, its replay
     read and its deliveries, other watchers doing whatever they do), once the dispatcher has caught up and the
